@@ -11,7 +11,7 @@ def groundspeed (mov : Nat) : Option Json :=
   else if mov == 1 then some (jrat 0 1)
   else if mov ≤ 8 then some (jrat (1 + (mov - 2)) 8)              -- 0.125 + (mov-2)*0.125
   else if mov ≤ 12 then some (jrat (4 + (mov - 9)) 4)             -- 1 + (mov-9)*0.25
-  else if mov ≤ 38 then some (jrat (8 + (mov - 13)) 4)            -- 2 + (mov-13)*0.25
+  else if mov ≤ 38 then some (jrat (4 + (mov - 13)) 2)            -- 2 + (mov-13)*0.5
   else if mov ≤ 93 then some (jrat (15 + (mov - 39)) 1)
   else if mov ≤ 108 then some (jrat (70 + (mov - 94) * 2) 1)
   else if mov ≤ 123 then some (jrat (100 + (mov - 109) * 5) 1)
